@@ -323,3 +323,29 @@ Proof.
     rewrite firstn_all2 in R, RS by lia. split; [exact N|split; [exact R|]]. rewrite RS. apply filter_norm.
 Qed.
 End MsfLayout.
+
+(* ---- several inputs -------------------------------------------------------------------------------------------- *)
+(* two FASTA files written by kalign, read as two inputs: the records of the first followed by the records of the second *)
+Theorem read_two_fasta rows1 rows2 :
+  (2 <= length rows1)%nat -> rows2 <> [] ->
+  Forall (fun nr => name_ok (fst nr) /\ good_row (snd nr)) rows1 -> Forall (fun nr => name_ok (fst nr) /\ good_row (snd nr)) rows2 ->
+  forall h1 h2, read_one (write_fasta rows1) = Some (Some (mkM (map rec_of rows1) h1)) ->
+                read_one (write_fasta rows2) = Some (Some (mkM (map rec_of rows2) h2)) ->
+  biotype_of ALN_BIOTYPE_UNDEF h1 <> ALN_BIOTYPE_UNDEF ->
+  biotype_of ALN_BIOTYPE_UNDEF h2 = biotype_of ALN_BIOTYPE_UNDEF h1 ->
+  exists m, read_inputs [write_fasta rows1; write_fasta rows2] = ROk m /\ i_recs m = map rec_of (rows1 ++ rows2).
+Proof.
+  intros L1 N2 H1 H2 h1 h2 R1 R2 B1 B2. unfold read_inputs. cbn [fold_left]. unfold read_step at 2. rewrite R1. cbn [m_recs m_freq].
+  rewrite map_length. destruct (Nat.ltb_spec (length rows1) 2) as [|_]; [lia|].
+  unfold read_step. rewrite R2. cbn [m_recs m_freq i_biotype i_recs i_freq].
+  rewrite B2. destruct (Z.eqb_spec (biotype_of ALN_BIOTYPE_UNDEF h1) ALN_BIOTYPE_UNDEF) as [E|_]; [contradiction|]. cbn [negb andb].
+  rewrite Z.eqb_refl. cbn [negb andb].
+  rewrite app_length, !map_length. destruct (Nat.ltb_spec (length rows1 + length rows2) 2) as [|_]; [lia|].
+  eexists. split; [reflexivity|]. cbn [i_recs]. rewrite map_app. reflexivity.
+Qed.
+
+Lemma records_of_rec_of rows : Forall (fun nr => good_row (snd nr)) rows -> records_of (map rec_of rows) = residues_of rows.
+Proof.
+  intros H. unfold records_of, residues_of. rewrite map_map. apply map_ext_in. intros nr Hin.
+  rewrite Forall_forall in H. destruct (rec_of_props nr (H nr Hin)) as (N & _ & S & _). rewrite N, S. reflexivity.
+Qed.
